@@ -500,6 +500,9 @@ func (eng *Engine) checkContract(u *FuncUnit) {
 	for _, cl := range u.C.Stable {
 		eng.checkClause(u.Pkg, cl, pos, u, false)
 	}
+	for _, cl := range u.C.EnsuresTrusted {
+		eng.checkClause(u.Pkg, cl, pos, u, sig.Results().Len() > 0)
+	}
 	for _, cl := range u.C.EnsuresLocal {
 		eng.localClause = "post:" + cl.Label
 		eng.checkClause(u.Pkg, cl, u.Decl.Body.Rbrace, u, sig.Results().Len() > 0)
